@@ -115,9 +115,9 @@ def jsonCase (id : String) (payload : List Sexp) : List String :=
       let clash := (sg.any (fun m => sG.contains m) || ss.any (fun m => sS.contains m)) ||
         (leavesTop t).any (fun l => l.top && !l.info.skip && !isExportedName l.info.name &&
           (allG.contains (Transfer.pascalS l.info.name) || allS.contains ("Set" ++ Transfer.pascalS l.info.name)))
-      -- an exported field excluded from generation (`new:"-"`): the generated MarshalJSON drops it while the standard
-      -- encoding keeps it; the property does not say which -> Out (noted in DESIGN as a suspected defect)
-      let skippedExported := (leavesTop t).any (fun l => l.info.skip && isExportedName l.info.name)
+      -- an exported field excluded from generation (`new:"-"`): the generated MarshalJSON drops it, the property wants a
+      -- key per exported field -> finding region F_jsonSkipExported (when MarshalJSON is generated at all)
+      let skippedExp := Json.skippedExported t
       let exportedUnderscore := sk.any (fun k => k.exported && k.name.contains '_')
       -- no MarshalJSON generated (needJSON false): the standard encoding resolves embedded fields by JSON key, not by
       -- Go name, so a hidden exported promoted field may still appear; nothing generated governs that -> Out
@@ -125,7 +125,8 @@ def jsonCase (id : String) (payload : List Sexp) : List String :=
         (leavesTop t).any (fun l => isExportedName l.info.name && goShadowed t l.depth l.info.name)
       let reg :=
         if stdAmbig then "Out" else
-        if Ctor.region t != "WF" || !wfOnce t || badTag || dupKeys || clash || clashC03 || exportedUnderscore || skippedExported then "Out"
+        if Ctor.region t != "WF" || !wfOnce t || badTag || dupKeys || clash || clashC03 || exportedUnderscore then "Out"
+        else if skippedExp then (if needJSON getset tc sw promG promS fs then "F_jsonSkipExported" else "Out")
         else "WF"
       let aux := [("needjson", toString (needJSON getset tc sw promG promS fs))]
       let tgt := sk.map (fun k => ("target:" ++ tagName k.key, match targetOf t visS k.name with | some (p, _, _) => p | none => "?"))
